@@ -236,6 +236,11 @@ func TestVerifC10TCP(t *testing.T) {
 		seqs2 = vkAllKindSeqs(kinds, 2)
 		pairs = []pair{{seqs1, seqs1}, {seqs2, seqs1}, {seqs1, seqs2}, {seqs2, seqs2}}
 	}
+	// per-request EDNS state of a reused slab: one client sends a cookie, the other an EDNS
+	// query without one (both orders, one or two frames each)
+	ck := [][]string{{"ckhit"}, {"ckhit", "ckhit"}, {"hit", "ckhit"}, {"ckhit", "miss"}}
+	ed := [][]string{{"edhit"}, {"edhit", "edhit"}, {"ckhit"}, {"hit", "edhit"}}
+	pairs = append(pairs, pair{ck, ed}, pair{ed, ck})
 	cutsOf := func(kk []string) []int {
 		frames, _, _ := vkBuildFrames(kk, vkTagA)
 		return append([]int{0}, vkInteresting(frames)...)
